@@ -1145,7 +1145,10 @@ fn exec_recorded(ctx: &mut Ctx, scn: &StoreScn, rel: &str) -> Option<(Vec<OpRec>
             Op::Sync => {
                 let _ = h.verif_sync();
             }
-            Op::ClockJump(_) | Op::Close => {}
+            Op::ClockJump(secs) => {
+                ctx.sim.wall_skew_ns.fetch_add(secs * 1_000_000_000, std::sync::atomic::Ordering::Relaxed);
+            }
+            Op::Close => {}
         }
         drop(h);
         let last_seq = io_seq(ctx.sim);
@@ -1159,7 +1162,7 @@ fn exec_recorded(ctx: &mut Ctx, scn: &StoreScn, rel: &str) -> Option<(Vec<OpRec>
 }
 
 /// What kind of record is `k`, for reach probes and coverage signatures.
-fn classify_point(sim: &Sim, k: u64, hist: &[OpRec], ops: &[Op]) -> (u64, &'static str) {
+fn classify_point(sim: &Sim, k: u64, hist: &[OpRec], ops: &[Op], all_threads: &[Vec<Op>]) -> (u64, &'static str) {
     let (op, is_hint, tag) = fsim::with_fs(sim, |fs| {
         if k == 0 || k as usize > fs.log.len() {
             return (IoOp::Close, false, 0);
@@ -1168,6 +1171,8 @@ fn classify_point(sim: &Sim, k: u64, hist: &[OpRec], ops: &[Op]) -> (u64, &'stat
         (r.op, fs.path_name(r.path).ends_with(".hint"), r.tag)
     });
     let opidx = (tag & 0xffff_ffff) as usize;
+    let thread = ((tag >> 32) as usize).saturating_sub(1);
+    let ops: &[Op] = all_threads.get(thread).map(|v| &v[..]).unwrap_or(ops);
     let during = if opidx >= 1 && opidx <= ops.len() {
         match &ops[opidx - 1] {
             Op::Set(..) => "set",
@@ -1186,6 +1191,9 @@ fn classify_point(sim: &Sim, k: u64, hist: &[OpRec], ops: &[Op]) -> (u64, &'stat
 
 pub fn run_crash(ctx: &mut Ctx, scn: &StoreScn, power: bool) {
     let rel = ctx.new_dir("s");
+    if scn.threads.len() > 1 {
+        return run_crash_concurrent(ctx, scn, power, &rel);
+    }
     let (hist, store) = match exec_recorded(ctx, scn, &rel) {
         Some(x) => x,
         None => return,
@@ -1198,6 +1206,92 @@ pub fn run_crash(ctx: &mut Ctx, scn: &StoreScn, power: bool) {
     let last = io_seq(ctx.sim);
     drop(store);
     ctx.join_others();
+    crash_enumerate(ctx, scn, &rel, hist, last, power);
+}
+
+/// Concurrent workload: every thread owns the keys with index % nthreads == its index, so the
+/// acknowledged value of a key is defined by its owner's program order; a thread of `Merge`
+/// operations may run alongside. Crash points are positions in the global I/O log of the schedule.
+fn run_crash_concurrent(ctx: &mut Ctx, scn: &StoreScn, power: bool, rel: &str) {
+    let store = match open_store(ctx, rel, &scn.cfg) {
+        Ok(s) => s,
+        Err(e) => {
+            ctx.viol("open-failed", format!("initial open failed: {}", e), "");
+            return;
+        }
+    };
+    let results: Arc<StdMutex<Vec<(usize, usize, Option<(usize, Option<Vec<u8>>)>, Option<String>)>>> = Arc::new(StdMutex::new(Vec::new()));
+    let mut joins = Vec::new();
+    for (ti, ops) in scn.threads.iter().enumerate() {
+        let h = store.h.clone();
+        let ops = ops.clone();
+        let keys = scn.keys.clone();
+        let results = results.clone();
+        joins.push(simrt::spawn(&format!("client-{}", ti), simrt::sched::DEFAULT_STACK, move || {
+            for (i, op) in ops.iter().enumerate() {
+                fsim::set_op_tag(tag_of(ti, i));
+                let (effect, err) = match op {
+                    Op::Set(k, v) => {
+                        let val = v.bytes();
+                        match set(&h, &keys[*k], val.clone()) {
+                            Ok(()) => (Some((*k, Some(val))), None),
+                            Err(e) => (None, Some(format!("set: {}", e))),
+                        }
+                    }
+                    Op::Del(k) => match del(&h, &keys[*k]) {
+                        Ok(_) => (Some((*k, None)), None),
+                        Err(e) => (None, Some(format!("del: {}", e))),
+                    },
+                    Op::Get(k) => match get(&h, &keys[*k]) {
+                        Ok(_) => (None, None),
+                        Err(e) => (None, Some(format!("get: {}", e))),
+                    },
+                    Op::Merge => match merge(&h) {
+                        Ok(()) => (None, None),
+                        Err(e) => (None, Some(format!("merge: {}", e))),
+                    },
+                    _ => (None, None),
+                };
+                fsim::set_op_tag(0);
+                results.lock().unwrap().push((ti, i, effect, err));
+            }
+        }));
+    }
+    for j in joins {
+        let _ = j.join();
+    }
+    let last = io_seq(ctx.sim);
+    drop(store);
+    ctx.join_others();
+    let mut rs: Vec<_> = results.lock().unwrap().drain(..).collect();
+    rs.sort_by_key(|r| (r.0, r.1));
+    if let Some((t, i, _, Some(e))) = rs.iter().find(|r| r.3.is_some()) {
+        ctx.viol("op-failed", format!("t{}#{} returned {} with no fault injected", t, i, e), "");
+        return;
+    }
+    // records of each operation, by tag
+    let spans: BTreeMap<u64, (u64, u64)> = fsim::with_fs(ctx.sim, |fs| {
+        let mut m: BTreeMap<u64, (u64, u64)> = BTreeMap::new();
+        for r in &fs.log {
+            if r.tag != 0 && r.seq <= last {
+                let e = m.entry(r.tag).or_insert((r.seq, r.seq));
+                e.1 = r.seq;
+            }
+        }
+        m
+    });
+    let mut hist = Vec::new();
+    for (t, i, effect, _) in rs {
+        if let Some((a, b)) = spans.get(&tag_of(t, i)) {
+            hist.push(OpRec { idx: i, thread: t, first_seq: *a, last_seq: *b, effect, ok: true });
+        }
+    }
+    ctx.sim.probe("concurrent_crash_workload");
+    crash_enumerate(ctx, scn, rel, hist, last, power);
+}
+
+fn crash_enumerate(ctx: &mut Ctx, scn: &StoreScn, rel: &str, hist: Vec<OpRec>, last: u64, power: bool) {
+    let rel = rel.to_string();
     // freeze: from here on the workload directory's history is only read
     let keys = &scn.keys;
     let ops = &scn.threads[0];
@@ -1257,7 +1351,7 @@ pub fn run_crash(ctx: &mut Ctx, scn: &StoreScn, power: bool) {
     rec_cfg.merge_always = false;
     rec_cfg.sync = SyncCfg::None;
     for &k in &chosen {
-        let (code, during) = classify_point(ctx.sim, k, &hist, ops);
+        let (code, during) = classify_point(ctx.sim, k, &hist, ops, &scn.threads);
         let (want, inflight) = durable_expectation(&hist, keys, k);
         // the files and their written / synced lengths at k
         let files: Vec<(String, u64, u64, usize)> = fsim::with_fs(ctx.sim, |fs| fs.image_at(&rel, k));
@@ -1331,7 +1425,10 @@ pub fn run_crash(ctx: &mut Ctx, scn: &StoreScn, power: bool) {
                     }
                 }
             }
-            ctx.sig(mix(code, variant as u64));
+            let nd = img.keys().filter(|n| n.ends_with(".data")).count().min(5) as u64;
+            let nh = img.keys().filter(|n| n.ends_with(".hint")).count().min(3) as u64;
+            let empty = img.iter().any(|(n, b)| n.ends_with(".data") && b.is_empty()) as u64;
+            ctx.sig(mix(mix(code, variant as u64), mix(nd, mix(nh, mix(empty, lost_any as u64 + 2 * torn_any as u64)))));
             if std::env::var("BCSIM_DEBUG").is_ok() {
                 eprintln!("point k={} during={} variant={} files=[{}] want={:?} inflight={}", k, during, variant, img.iter().map(|(n, b)| format!("{}:{}", n, b.len())).collect::<Vec<_>>().join(" "), want.iter().map(|(k, v)| (hex(k), hex(v))).collect::<Vec<_>>(), inflight.len());
             }
